@@ -22,14 +22,16 @@ def _params(t, rounded):
     return p
 
 
-def gsd_missing_type_raises(keys: List[str], dims: int) -> bool:
+POOL = ("diameter", "a", "b", "c", "vertices", "rounding_radius", "indices", "Type", "types", "typ")
+
+
+def gsd_missing_type_raises(idx: List[int], dims: int) -> bool:
     """
-    pre: "type" not in keys
-    pre: len(keys) <= 2
-    pre: all(len(k) <= 4 for k in keys)
+    pre: len(idx) <= 2
+    pre: all(0 <= i < 10 for i in idx)
     post: _
     """
-    params = {k: 1.0 for k in keys}
+    params = {POOL[i]: 1.0 for i in idx}  # any combination of keys that are not 'type'
     try:
         from_gsd_type_shapes(params, dims)
     except ValueError:
@@ -88,15 +90,18 @@ def to_json_exact_keys(idx: List[int]) -> bool:
     return set(d.keys()) == set(names) and all(str(d[n]) == str(getattr(c, n)) for n in names)
 
 
-def to_json_unknown_attribute(name: str) -> bool:
+UNKNOWN = ("x", "radiu", "Radius", "areas", "", "vertices", "volume", "a", "faces", "centre")
+
+
+def to_json_unknown_attribute(i: int, j: int) -> bool:
     """
-    pre: len(name) <= 3
-    pre: not hasattr(S.Circle, name)
+    pre: 0 <= i < 10
+    pre: 0 <= j < 7
     post: _
     """
     c = S.Circle(1.5, (1.0, 2.0, 3.0))
     try:
-        c.to_json([name])
+        c.to_json([ATTRS[j], UNKNOWN[i]])  # a valid attribute followed by an unknown one
     except AttributeError:
         return True
     return False
